@@ -89,7 +89,7 @@ def check_objects(st, cls, spec, mode):
         out.message = "%s: %s" % (type(e).__name__, e)
         out.compiled = run.Compiled(error=str(e), etype=type(e).__name__)
         st.account(ID, cs, out, None, mode_key=mode)
-        return None
+        return ("ERR", out.message)
     out.status = "ok"
     out.nontrivial = True
     out.compiled = run.Compiled(None, t1)
@@ -183,16 +183,14 @@ def shard(tier, seed, shard, nshards):
                     s2.extra = ""
                     s2.spacetime = None
                 t = check_objects(st, "accel", s2, m)
-                if t is not None:
-                    history.append((s2, m, t))
+                history.append((s2, m, t))
     for i in range(n):
         it = corpus.item(ID, seed, shard, i)
         if it is None:
             continue
         cls, spec, mode, ext, rnd = it
         t = check_objects(st, cls, spec, mode)
-        if t is not None:
-            history.append((spec, mode, t))
+        history.append((spec, mode, t))
     # renamed twins: the same index expressions on differently named ranks, compiled right
     # after each other (a process-wide cache keyed on the expression would collide)
     from ..gen import affine as GA
@@ -202,11 +200,10 @@ def shard(tier, seed, shard, nshards):
         s2 = rename_ranks(s1, rnd2)
         for sp in (s1, s2):
             t = check_objects(st, "twin", sp, "plain")
-            if t is not None:
-                history.append((sp, "plain", t))
+            history.append((sp, "plain", t))
     # history independence: the same specs, first thing in a fresh interpreter
     rnd = random.Random("%s-hist-%d-%d" % (ID, seed, shard))
-    sample = rnd.sample(history, min(len(history), 40 if tier == "quick" else 120))
+    sample = rnd.sample(history, min(len(history), 64 if tier == "quick" else 160))
     # (a) each alone in a fresh process; (b) in-process, after everything else, again
     # one fresh interpreter per shard; it sees the sample in REVERSE order, so the last
     # in-process item is compiled first-thing there and every item has a different history
@@ -215,10 +212,23 @@ def shard(tier, seed, shard, nshards):
     fresh = [[x] for x in reversed(got)] if got is not None else [None] * len(sample)
     for (s, m, t), f in zip(sample, fresh):
         st.evaluations += 1
-        if f is None or f[0] is None:
+        if f is None:
             st.bump("monitor", "fresh-process-failed")
             continue
         st.bump("monitor", "fresh-process-compares")
+        failed_here = isinstance(t, tuple)
+        if failed_here != (f[0] is None):
+            cs = C.Case(s, {}, {}, {}, m)
+            st.violations.append(C.violation(
+                ID, cs, [{"kind": "history-dependent-acceptance", "in_process": t if failed_here
+                          else "compiled", "fresh_process": "refused" if f[0] is None else "compiled"}],
+                "whether `%s` compiles depends on what was compiled before: in-process %s, fresh "
+                "process %s" % ("; ".join(e.text() for e in s.exprs),
+                                t[1] if failed_here else "compiled",
+                                "refused" if f[0] is None else "compiled")))
+            continue
+        if failed_here:
+            continue
         again = run.compile_yaml(s.yaml(), m)
         if f[0] != t or (again.ok and again.text != t):
             cs = C.Case(s, {}, {}, {}, m)
